@@ -189,6 +189,26 @@ def _member_types(kind, body):
     return out
 
 
+def _cells(kind, t):
+    """The cell types of `kind` in the type text `t`, e.g. `Rc<Code>`, `RefCell<String>`, `Box<dyn Data>` (angle brackets
+    balanced, whitespace removed), sorted, joined by ` | `."""
+    found = set()
+    rx = r"\b(?:Box|Rc|Arc)\s*<\s*dyn\b" if kind == "dyn" else r"\b" + kind + r"\s*<"
+    for m in re.finditer(rx, t):
+        i, depth = t.index("<", m.start()), 0
+        j = i
+        while j < len(t):
+            depth += t[j] == "<"
+            depth -= t[j] == ">"
+            if depth == 0:
+                break
+            j += 1
+        found.add("".join(t[m.start():j + 1].split()).replace("dyn", "dyn "))
+    if kind == "dyn" and not found:
+        found.add("dyn")
+    return " | ".join(sorted(found))
+
+
 def _audit(x, env_fields):
     """Per non-`system` field of Env: interior-mutability / shared-ownership / opaque types reachable from it
     (name resolution is by bare type name over yash-env and yash-syntax, i.e. an over-approximation)."""
@@ -211,7 +231,7 @@ def _audit(x, env_fields):
                 if key not in uniq:
                     uniq.add(key)
                     d = decl if len(decl) <= 100 else decl[:100] + "…"
-                    out.append((f, k, path, f"{owner} {{ {d} }}"))
+                    out.append((f, k, path, f"{owner} {{ {d} }}", _cells(k, t)))
             for name in re.findall(r"\b([A-Z]\w*)\b", t):
                 if name in STD_WRAPPERS or len(name) == 1 or name in seen:
                     continue
@@ -450,7 +470,7 @@ def fork_maps(x):
     pfork, fds_limit_checked = _fork_from_map(x, proc, [f for f, _ in proc_fields])
 
     audit = _audit(x, env_fields)
-    for fld, kd, p, d in audit:
+    for fld, kd, p, d, _c in audit:
         print(f"extract_tables: C08 audit: Env.{fld}: {kd} at {p}  [{d}]")
 
     b = lambda v: "true" if v else "false"
@@ -484,12 +504,40 @@ def fork_maps(x):
                "above the soft RLIMIT_NOFILE, so such a\n    copy drops every descriptor above a lowered limit; a wholesale "
                "`fds.clone()`, or the loop before the limits are\n    copied, does not.) -/\n"
                f"def forkFdsLimitChecked : Bool := {b(fds_limit_checked)}\n")
-    body = ",\n   ".join(f"({lean_s(fld)}, {lean_s(k)}, {lean_s(p)}, {lean_s(d)})" for fld, k, p, d in audit)
+    body = ",\n   ".join(f"({lean_s(fld)}, {lean_s(k)}, {lean_s(p)}, {lean_s(d)})" for fld, k, p, d, _c in audit)
+    cells = sorted({(k, p.split("/")[-1], c) for _f, k, p, _d, c in audit})
+    cbody = ",\n   ".join(f"({lean_s(k)}, {lean_s(m)}, {lean_s(c)})" for k, m, c in cells)
     out.append("/-- Static audit (not a theorem): interior-mutability / shared-ownership types found in a type "
                "reachable from a\n    non-`system` field of `Env`: (Env field, kind, path, declaration); `dyn` = opaque trait object. A "
                "`Clone` of such a field shares the\n    cell between parent and child in the virtual system; only "
                "the correspondence sweep can show that nothing\n    leaks through it. -/\n"
                f"def interiorMutability : List (String × String × String × String) :=\n  [{body}]\n")
+    # who writes the one shared mutable cell (`Code.value: RefCell<String>`): every `.value.borrow_mut()` /
+    # `.value.try_borrow_mut()` in the non-test code of the crates that can reach a `Code`
+    import os
+    writers = []
+    for crate in ("yash-syntax", "yash-env", "yash-semantics", "yash-builtin", "yash-prompt", "yash-cli"):
+        base = os.path.join(x.REPO, crate, "src")
+        for root, _dirs, files in sorted(os.walk(base)):
+            for fn in sorted(files):
+                if not fn.endswith(".rs"):
+                    continue
+                rel = os.path.relpath(os.path.join(root, fn), x.REPO)
+                src = _strip_comments(x.read(rel))
+                cut = re.search(r"#\[cfg\(test\)\]\s*mod\s+tests\b", src)
+                if cut:
+                    src = src[:cut.start()]
+                for m in re.finditer(r"\.\s*value\s*\.\s*(?:try_)?borrow_mut\s*\(\s*\)\s*(?:\.\s*(\w+))?", src):
+                    writers.append((rel, m.group(1) or "<held>"))
+    writers.sort()
+    wbody = ", ".join(f"({lean_s(a)}, {lean_s(b)})" for a, b in writers)
+    out.append("/-- every place of the non-test code that takes a mutable borrow of a `….value` cell (`Code.value`), with the\n"
+               "    method called on it -/\n"
+               f"def codeValueWriters : List (String × String) :=\n  [{wbody}]\n")
+    out.append("/-- The same audit reduced to what a classification needs: every DISTINCT (kind, `Owner.member` holding the cell,\n"
+               "    the cell type(s) of that kind in the member's type) reachable from a cloned field of `Env`.  Classified by\n"
+               "    `env_cells_classified` (Fork/Theorems.lean): a new or changed cell breaks that proof. -/\n"
+               f"def interiorCells : List (String × String × String) :=\n  [{cbody}]\n")
     x.write("ForkMaps", "\n".join(out))
 
 
